@@ -51,10 +51,24 @@ theorem addRaw_rel (K : Kern) (pool : Pool) (s : State) (a0 a1 : Rat) (lo up : I
     | exact BarRel.refl s
     | exact BarRel.ofUpdate rfl rfl rfl rfl
 
+theorem collectFinish_rel (K : Kern) (pool : Pool) (s : State) (lo up : Int) (p : Pos) (f0 f1 : Rat) (rd tu : Bool)
+    (bb qb : Rat) : BarRel s (collectFinish K pool s lo up p f0 f1 rd tu bb qb) := by
+  unfold collectFinish
+  simp only []
+  split <;> exact BarRel.ofUpdate rfl rfl rfl rfl
+
 theorem collect_rel (K : Kern) (pool : Pool) (s : State) (lo up : Int) (m0 m1 : Option Rat) (rd tu : Bool) :
     BarRel s (collect K pool s lo up m0 m1 rd tu).2 := by
   unfold collect
-  try simp only []
+  repeat' split
+  all_goals first
+    | exact BarRel.refl s
+    | exact collectFinish_rel ..
+    | exact BarRel.ofUpdate rfl rfl rfl rfl
+
+theorem removeNoCollect_rel (K : Kern) (pool : Pool) (s : State) (lo up : Int) (l : Option Int) (sq : Option Nat) :
+    BarRel s (removeNoCollect K pool s lo up l sq).2 := by
+  unfold removeNoCollect
   repeat' split
   all_goals first
     | exact BarRel.refl s
@@ -63,12 +77,13 @@ theorem collect_rel (K : Kern) (pool : Pool) (s : State) (lo up : Int) (m0 m1 : 
 theorem remove_rel (K : Kern) (pool : Pool) (s : State) (lo up : Int) (l : Option Int) (c : Bool) (sq : Option Nat)
     (rd : Bool) : BarRel s (remove K pool s lo up l c sq rd).2 := by
   unfold remove
-  try simp only []
-  repeat' split
-  all_goals first
-    | exact BarRel.refl s
-    | exact BarRel.ofUpdate rfl rfl rfl rfl
-    | (refine BarRel.trans ?_ (collect_rel ..); exact BarRel.ofUpdate rfl rfl rfl rfl)
+  have h := removeNoCollect_rel K pool s lo up l sq
+  split
+  · rename_i heq; exact BarRel.ofEq h heq
+  · rename_i heq
+    split
+    · exact BarRel.trans (BarRel.ofEq h heq) (collect_rel ..)
+    · exact BarRel.ofEq h heq
 
 theorem removeAllLoop_rel (K : Kern) (pool : Pool) : ∀ (ks : List (Int × Int)) (s : State),
     BarRel s (removeAllLoop K pool ks s).2
